@@ -85,6 +85,23 @@ def run(tier, seed):
             chk.violation(f"encode_cbor raised outside the hierarchy: {il}", f"nonlib-parser encode_cbor {il}", {"entry": "encode_cbor", "value": repr(v)[:80], "impl": il})
     base_a = {"id": "AQ", "rawId": "AQ", "type": "public-key", "response": {"clientDataJSON": "e30", "authenticatorData": "AAAA", "signature": "c2ln", "userHandle": "dWg"}}
     base_r = {"id": "AQ", "rawId": "AQ", "type": "public-key", "response": {"clientDataJSON": "e30", "attestationObject": "o2NmbXQ", "transports": ["usb"]}}
+    # systematic: every member replaced by every value of the list (incl. nested arrays / objects inside transports), both parsers
+    import copy
+    extra_vals = [["usb", {"transport": "nfc"}], [[], {}], [["usb"]], ["usb", None, 5, True, 1.5, ["x"], {"y": []}], {"usb": 1}]
+    for kind, base in (("auth", base_a), ("reg", base_r)):
+        for pth in [q for q in jsonmut.paths(base) if q]:
+            for v in jsonmut.VALUES + extra_vals + ["__absent__"]:
+                d = copy.deepcopy(base)
+                par = jsonmut.get_parent(d, pth)
+                if v == "__absent__":
+                    del par[pth[-1]]
+                else:
+                    par[pth[-1]] = copy.deepcopy(v)
+                for val in (d, json.dumps(d)):
+                    il = (impl.parse_auth_cred if kind == "auth" else impl.parse_reg_cred)(val)
+                    chk.evals += 1
+                    if not il.startswith("OK") and not il.startswith("ERR Lib:"):
+                        chk.violation(f"credential JSON parser raised outside the hierarchy: {il}", f"nonlib-parser {kind}-json {il}", {"entry": f"parse_{kind}_credential_json", "input": val, "impl": il})
     for i in range(300 if quick else 20000):
         kind, base = rng.choice((("auth", base_a), ("reg", base_r)))
         d = jsonmut.mutate(base, rng)
